@@ -11,5 +11,11 @@ run(){ patch=$1; prop=$2; name=$3
   else echo "$name $prop no-apply"; fi
   git -C /repo worktree remove --force $WT
 }
-for p in mutants/*.patch; do n=$(basename $p .patch); run $(realpath $p) ${n%%-*} "mutant:$n"; done
+# usage: tools/regress_all.sh [all|seeded|mutants]   (seeded changes first: they are the independent ones)
+WHAT=${1:-all}
+if [ "$WHAT" != mutants ]; then
 for d in seeded/*/; do n=$(basename $d); prop=$(jq -r .property $d/meta.json 2>/dev/null); [ -n "$prop" ] && run $(realpath $d/patch.diff) $prop "seeded:$n"; done
+fi
+if [ "$WHAT" != seeded ]; then
+for p in mutants/*.patch; do n=$(basename $p .patch); run $(realpath $p) ${n%%-*} "mutant:$n"; done
+fi
